@@ -483,7 +483,7 @@ func tailFrom(b []byte, i int) []byte {
 func genStreamCase(r *core.Run, sub uint64, i int) *streamCase {
 	rr := core.NewRand(r.Seed, sub, uint64(i))
 	cfg := &gen.StreamCfg{MaxDumps: 5, RaceChance: 3, NoFinalEOLChance: 2,
-		Junk:    gen.JunkCfg{Separators: true, Long: i%9 == 0, Binary: true, MixedEOL: i%6 == 1},
+		Junk:    gen.JunkCfg{Separators: true, Long: i%9 == 0, Binary: true, MixedEOL: i%6 == 1, StrayCR: i%3 == 0},
 		DumpCfg: gen.Cfg{MaxG: 4, MaxFrames: 6, MaxDepth: 3, LongLines: i%31 == 0}}
 	c := &streamCase{Stream: gen.GenStream(rr, cfg)}
 	switch i % 5 {
